@@ -123,18 +123,29 @@ abbrev NS := List (Name × Val)
 
 def NS.get (ns : NS) (n : Name) : Option Val := List.lookup n ns
 
-/-- `get_default`: stored value, else the declared default -/
-def observe (a : Attr) (ns : NS) : Option Val :=
-  match ns.get a.name with
+/-- stored value, else the declared default -/
+def obsOf (a : Attr) (stored : Option Val) : Option Val :=
+  match stored with
   | some v => some v
   | none => a.default
 
+/-- `get_default` -/
+def observe (a : Attr) (ns : NS) : Option Val := obsOf a (ns.get a.name)
+
 /-! ### export: `_export_dxf_attribute_optional` + `_export_group_codes` -/
 
-/-- `value[:2]` / `(value.x, value.y)` for explicit 2D points -/
+/-- `value[:2]` / `(value.x, value.y)` for explicit 2D points (`if len(value) > 2`); the slice also
+    applies to strings and bytes should a non-point attribute be declared `point2d` -/
 def trunc2 : Val → Val
   | .pt x y _ => .pt2 x y
+  | .str s => .str (s.take 2)
+  | .bin d => .bin (d.take 2)
   | v => v
+
+/-- `len(value)` raises TypeError for a number: only reachable when a numeric attribute is declared
+    `point2d` (excluded by `attrOK`) -/
+def exportRaises (a : Attr) (v : Val) : Bool :=
+  a.xtype == .point2d && (match v with | .int _ => true | .dbl _ => true | _ => false)
 
 /-- `value = self.get(name, None)`; "Force default value e.g. layer" -/
 def exportValue (a : Attr) (stored : Option Val) : Option Val :=
@@ -355,9 +366,8 @@ def loadStep (tbl : List (Int × Name)) (ver : Nat) (subs : List (List LTag)) (n
     | none => ns
     | some lt =>
       let tags := untag (if r12 then lt else lt.filter (fun t => !drop.contains t.lab))
-      match tags with
-      | [] => ns
-      | _ =>
+      if tags.isEmpty then ns      -- `if tags is None or len(tags) == 0: return`
+      else
         let r := fastLoad m tags ns
         if recover && !r12 then (recoverLoad tbl r.2 r.1).1 else r.1
   | .simple m => simpleLoad m (untag subs.flatten) ns
@@ -484,12 +494,11 @@ def simSteps (tbl : List (Int × Name)) (ver : Nat) (exp : List Name) (sss : Lis
 
 /-- value admissible for attribute `a`: class of the group code; explicit 2D points have z = ±0 -/
 def valOK (a : Attr) (v : Val) : Bool :=
-  inClass a.code v && (match a.xtype, v with
-    | .point2d, .pt _ _ z => isZero z
-    | _, _ => true)
+  inClass a.code v &&
+  (a.xtype != .point2d || (isPointCode a.code && (match v with | .pt _ _ z => isZero z | _ => false)))
 
 def attrOK (a : Attr) : Bool :=
-  !isBinaryCode a.code && !(a.code == 0 || a.code == 100) &&
+  !isBinaryCode a.code && !(a.code == 0 || a.code == 100) && (a.xtype != .point2d || isPointCode a.code) &&
   (match a.default with | some d => valOK a d | none => true)
 
 /-- every exported attribute: declared, sane code, class-conform default -/
@@ -541,6 +550,17 @@ def monoViolations (c : ClassSchema) : List (Name × Nat × Nat) :=
         ((planNames p).filter (fun n =>
           (match c.attrs.find n with | some a => a.minVer ≤ p.ver | none => false) &&
           !(planNames q).contains n)).map (fun n => (n, p.ver, q.ver))
+      else []))
+
+/-- the other direction: a name exported by a later plan whose version gate is already open for an
+    earlier exported version is exported by the earlier plan too -/
+def downViolations (c : ClassSchema) : List (Name × Nat × Nat) :=
+  c.plans.flatMap (fun p =>
+    c.plans.flatMap (fun q =>
+      if p.ver < q.ver then
+        ((planNames q).filter (fun n =>
+          (match c.attrs.find n with | some a => decide (a.minVer ≤ p.ver) | none => false) &&
+          !(planNames p).contains n)).map (fun n => (n, p.ver, q.ver))
       else []))
 
 /-! ### payload codecs -/
@@ -661,6 +681,7 @@ structure Ent where
 inductive Node where
   | single (e : Ent)
   | linked (main : Ent) (subs : List Ent) (seqend : Ent)
+  | unterminated (main : Ent) (subs : List Ent)     -- the stream ended before the SEQEND of `main`
   deriving Repr
 
 inductive LinkErr where
@@ -683,6 +704,7 @@ def startsLink (e : Ent) : Bool :=
 def Node.flatten : Node → List Ent
   | .single e => [e]
   | .linked m subs s => m :: subs ++ [s]
+  | .unterminated m subs => m :: subs
 
 /-- state of the linker closure: `main_entity` with the sub-entities collected so far -/
 structure LinkState where
@@ -706,17 +728,18 @@ def linkAll : LinkState → List Ent → Except LinkErr LinkState
     | .ok σ' => linkAll σ' rest
     | .error err => .error err
 
-/-- the entities stored in the entity space with their linked sub-entities; a main entity whose
-    SEQEND is missing at the end of the stream keeps what was collected (`none` seqend is not
-    representable in `Node`, the case is outside the round trip statement) -/
+/-- the entities stored in the entity space with their linked sub-entities (the main entity is stored
+    when it is seen; the sub-entities are attached to it as they arrive) -/
 def link (es : List Ent) : Except LinkErr (List Node) :=
   match linkAll ⟨[], none⟩ es with
-  | .ok σ => .ok σ.out
+  | .ok σ =>
+    .ok (σ.out ++ (match σ.main with | some (m, subs) => [.unterminated m subs] | none => []))
   | .error e => .error e
 
 def nodeWF : Node → Bool
   | .single e => !startsLink e
   | .linked m subs s =>
     startsLink m && s.kind == .seqend && subs.all (fun x => some x.kind == expectedSub m.kind)
+  | .unterminated _ _ => false
 
 end EzdxfVerif.Schema
